@@ -341,14 +341,15 @@ def norm_stmt(s):
     return re.sub(r"\s+", " ", s).strip()
 
 
-def coq_audit(prop, theorems):
+def coq_audit(prop, theorems, files=None):
     """Compile an audit file that prints the statement and the assumptions of every
     property theorem.  Returns {thm: {"statement":..., "sha":..., "assumptions":[...], "closed":bool}}."""
     ad = os.path.join(CACHE, "audit")
     os.makedirs(ad, exist_ok=True)
     vf = os.path.join(ad, f"Audit_{prop}.v")
     with open(vf, "w") as f:
-        f.write(f"From Verif Require Import Properties.{prop}.\n")
+        for pf in (files or [prop]):
+            f.write(f"From Verif Require Import Properties.{pf}.\n")
         f.write("Set Printing Width 100000.\nSet Printing Depth 100000.\n")
         for t in theorems:
             f.write(f'Goal True. idtac "@@@STMT {t}". Abort.\nCheck {t}.\n')
